@@ -35,7 +35,7 @@ def _alarm(signum, frame):
 class StepRecord:
     __slots__ = (
         "i", "step", "pre", "post", "ret", "exc", "exc_type", "exc_frame", "exc_msg", "draws",
-        "handlers", "contraction", "world", "cache", "user_arrays", "op_obj", "ctx_calls", "ctx_held",
+        "handlers", "contraction", "world", "cache", "user_arrays", "op_obj", "ctx_calls", "ctx_held", "user_list_before",
     )
 
     def __init__(self):
@@ -69,6 +69,7 @@ class Runner:
         S.rng = steer_rng
         S.script = list(script) if script else None
         self.op_cache = {}  # op id -> Operation object (for reuse, C15)
+        self.kraus_cache = {}  # kraus id -> the very list of operator arrays (re-used by later steps)
 
     # ------------------------------------------------------------------ helpers
     def o(self, name):
@@ -108,8 +109,15 @@ class Runner:
                 return self.o(step["env"]).apply_operation(op, *tg)
             return self.o(step["ce"]).apply_operation(op, *tg)
         if k == "kraus":
-            ops = opspec.arrays(step["ops"])
-            rec.user_arrays = list(ops)
+            kid = step.get("kraus_id")
+            if kid is not None and kid in self.kraus_cache:
+                ops = self.kraus_cache[kid]  # the caller re-uses his own list of operators
+            else:
+                ops = opspec.arrays(step["ops"])
+                if kid is not None:
+                    self.kraus_cache[kid] = ops
+            rec.user_arrays = ops
+            rec.user_list_before = [(id(x), tuple(x.shape)) for x in ops]
             if via == "state":
                 return tg[0].apply_kraus(ops)
             if via == "env":
@@ -194,6 +202,7 @@ class Runner:
         rec.op_obj = None
         rec.ctx_calls = None
         rec.ctx_held = None
+        rec.user_list_before = None
         rec.contraction = bool(self.C.contractions)
         rec.pre = snapshot(self.world)
         instrument.SAMPLER.begin()
